@@ -123,12 +123,23 @@ class FakeClient:
 
     async def subscribe(self, topic, qos=0, *args, **kwargs) -> None:
         await asyncio.sleep(0)
+        # acknowledgements of different subscriptions arrive at different times (the later the filter, the later its SUBACK)
+        self._sub_count = getattr(self, "_sub_count", 0) + 1
+        for _ in range(getattr(self.broker, "slow_subscribe", 0) * self._sub_count):
+            await asyncio.sleep(0)
         if self.broker.fail_subscribe:
             raise MqttError("subscribe failed")
         self.broker.filters.append(topic)
+        # retained messages are delivered as soon as a matching subscription is active - possibly while connect() is still subscribing
+        for entry in list(getattr(self.broker, "retained", [])):
+            if self.broker.matches(topic, entry[0]):
+                self.broker.retained.remove(entry)
+                self.broker.deliver(entry[0], entry[1], 0, True)
 
     async def publish(self, topic, payload=None, qos=0, retain=False, *args, **kwargs) -> None:
         await asyncio.sleep(0)
+        if self._disconnected.done() and self._disconnected.exception() is not None:
+            raise MqttError("publish on a connection that was lost")
         if self.broker.fail_publish_next:
             kind, self.broker.fail_publish_next = self.broker.fail_publish_next, False
             if kind == "MqttCodeError":
@@ -174,7 +185,12 @@ _level = st.one_of(
     st.sampled_from(META_LEVELS),
     st.text(st.characters(exclude_characters="+#/\x00", exclude_categories=("Cs",)), min_size=1, max_size=6),
 )
-prefixes = st.lists(_level, min_size=1, max_size=3).map("/".join)
+prefixes = st.one_of(
+    st.lists(_level, min_size=1, max_size=3).map("/".join),
+    st.lists(_level, min_size=1, max_size=3).map("/".join),
+    # empty topic levels are legal: a leading '/', a doubled '/', a trailing '/'
+    st.tuples(st.sampled_from(("/", "", "/")), st.lists(_level, min_size=1, max_size=2).map("//".join), st.sampled_from(("", "/", ""))).map("".join),
+)
 mqtt_payloads = st.one_of(
     st.sampled_from(("", "1", "20.5", "lat;lon;alt", ";", "a;b;;c", "a/b", "/", "x/y;z", "åäö", "日本", "p" * 2048)),
     # characters str.splitlines treats as line boundaries, inside the payload (MQTT payloads are not line-framed; only '\n' frames a serial line)
@@ -204,6 +220,7 @@ def _ops():
         (2, st.just(["abandoned_read"])),
         (3, st.integers(0, 4).map(lambda k: ["cancelled_read", k])),
         (2, _msg().map(lambda m: ["write_while_reading", m])),
+        (2, _msg().map(lambda m: ["reconnect_retained", m])),
     )
     return st.lists(op, min_size=0, max_size=14)
 
@@ -239,6 +256,14 @@ def enumerate_cases(tier: str):
         for in_prefix, out_prefix in ((level + "/out", level + "/in"), ("home/" + level, "home/" + level + "-in")):
             yield {"in_prefix": in_prefix, "out_prefix": out_prefix, "connect_fault": "none",
                    "ops": [["deliver", [1, 1, 1, 0, 2, "1"]], ["read"], ["echo", [12, 255, 3, 1, 9, "a;b"]], ["deliver", [255, 255, 3, 0, 3, ""]], ["reconnect"], ["deliver", [7, 255, 4, 0, 1, "ff"]], ["read"]]}
+    # retained messages arriving during connect(), one per command (the subscriptions become active one after the other)
+    for cmd, child in ((0, 1), (1, 1), (2, 1), (3, 255), (4, 255)):
+        yield {"in_prefix": "gw-out", "out_prefix": "gw-in", "connect_fault": "none",
+               "ops": [["reconnect_retained", [7, child, cmd, 0, 2, "kept"]], ["read"], ["deliver", [1, 1, 1, 0, 2, "1"]], ["reconnect_retained", [8, child, cmd, 1, 0, "again"]], ["read"], ["read"]]}
+    # prefixes with empty topic levels (leading '/', '//', trailing '/'): published and subscribed exactly as configured
+    for in_prefix, out_prefix in (("/home/gw-out", "/home/gw-in"), ("home//gw-out", "home//gw-in"), ("gw-out/", "gw-in/"), ("/", "//"), ("/a//b/", "/c")):
+        yield {"in_prefix": in_prefix, "out_prefix": out_prefix, "connect_fault": "none",
+               "ops": [["deliver", [1, 1, 1, 0, 2, "1"]], ["read"], ["echo", [12, 255, 3, 1, 9, "a;b"]], ["write", [3, 1, 2, 0, 0, ""]], ["reconnect"], ["deliver", [7, 255, 4, 0, 1, "ff"]], ["read"]]}
     for ack in (0, 1):
         yield {"in_prefix": "in", "out_prefix": "out", "connect_fault": "none",
                "ops": [["write_while_reading", [7, 1, 1, ack, 2, "a;b"]], ["deliver", [1, 1, 1, 0, 2, "1"]], ["read"], ["write_while_reading", [7, 255, 3, ack, 9, "x"]], ["reconnect"], ["write_while_reading", [1, 1, 2, ack, 0, ""]]]}
@@ -337,6 +362,8 @@ def run_case(case: dict) -> Outcome:
                 try:
                     await transport.write(line)
                 except AIOMySensorsError as err:
+                    if dead and isinstance(err, TransportError):
+                        continue  # the broker connection is gone: a publish that fails says so
                     return fail(f"write-raises:{type(err).__name__}", f"{where}: write({line[:80]!r}) raised {err!r}")
                 except Exception as err:  # noqa: BLE001
                     return fail(f"write-leak:{type(err).__name__}", f"{where}: write({line[:80]!r}) raised {err!r}")
@@ -444,6 +471,8 @@ def run_case(case: dict) -> Outcome:
                     return fail(f"publish-fault-leak:{type(err).__name__}", f"{where}: failing publish surfaced as {err!r}")
                 else:
                     return fail("publish-fault-swallowed", f"{where}: publish failed but write returned")
+                finally:
+                    broker.fail_publish_next = False  # (the fault belongs to this write only, whichever way it failed)
             elif kind == "read":
                 if expected:
                     bad = await do_read(where)
@@ -518,6 +547,26 @@ def run_case(case: dict) -> Outcome:
                 want_kind, want = expected.pop(0)
                 if want_kind != "line" or (got != want and got.rstrip("\n") != str(want).rstrip("\n")):
                     return fail("read-wrong-line", f"{where}: read returned {got!r}, expected {want_kind} {want!r}")
+            elif kind == "reconnect_retained":
+                # the broker holds a retained message for this client: it arrives while connect() is still busy subscribing
+                msg = op[1]
+                try:
+                    await transport.disconnect()
+                except Exception as err:  # noqa: BLE001
+                    return fail(f"reconnect-raises:{type(err).__name__}", f"{where}: disconnect raised {err!r}")
+                topic = f"{in_prefix}/{msg[0]}/{msg[1]}/{msg[2]}/{msg[3]}/{msg[4]}"
+                broker.retained = [(topic, msg[5].encode("utf-8"))]
+                broker.slow_subscribe = 3
+                try:
+                    await transport.connect()
+                except BaseException as err:  # noqa: BLE001
+                    return fail(f"reconnect-raises:{type(err).__name__}", f"{where}: connect raised {err!r}")
+                broker.slow_subscribe = 0
+                dead = False
+                if broker.retained:
+                    return fail("not-subscribed", f"{where}: topic {topic!r} matches none of the subscriptions {broker.filters!r}")
+                expected.append(("line", f"{msg[0]};{msg[1]};{msg[2]};{msg[3]};{msg[4]};{msg[5]}"))
+                await settle()
             elif kind == "reconnect":
                 # same transport object, new session; what was received but not read yet stays owed to the reader
                 try:
